@@ -572,5 +572,12 @@ def cmd_replay(path):
     print('replayed: class=%s msg=%s' % (res.violation['cls'], res.violation['msg']))
     print(json.dumps(res.violation.get('explained'), indent=1, default=repr))
     print('REPRODUCED-EXACTLY' if same else 'REPRODUCED-DIFFERENT-MESSAGE (recorded: %s)' % doc['violation']['msg'])
+    if hasattr(check, 'classify'):
+        try:
+            key = check.classify(res, doc['choices'], doc.get('tier', 'quick'))
+        except Exception:
+            key = None
+        if key and (doc['property'], key) in load_known_findings():
+            print('NOTE: on this tree the record is an instance of known finding %s of %s' % (key, doc['property']))
     print('VIOLATION property=%s replay=%s' % (doc['property'], path))
     return 1
